@@ -647,7 +647,11 @@ func (b *B) Formula(rule, construct, fnName string, names []string, lets [][2]st
 		} else {
 			fc = b.X.FCFor(fn)
 		}
-		b.Eq(rule, construct, b.pos(fn), fc.Sub(fc.RetVal(idx)), env, spec)
+		if mk != nil {
+			b.EqUnder(rule, construct, b.pos(fn), fc, fc.RetVal(idx), env, spec)
+		} else {
+			b.Eq(rule, construct, b.pos(fn), fc.RetVal(idx), env, spec)
+		}
 	})
 }
 
@@ -894,9 +898,11 @@ func (b *B) CheckSwap(rule, fnName string) {
 }
 
 // EquivByCases: a ≡ b by case analysis on the conditions of the gating
-// functions occurring in them (each condition treated as an independent
-// boolean; a condition that becomes decidable after earlier choices is
-// resolved). Makes the nesting order of if-then-else irrelevant.
+// functions occurring in them. A comparison is split into the order regions
+// of its two sides (less, equal, greater, and unordered for floats) and every
+// comparison of the same two sides is decided per region; other boolean
+// atoms are split true/false. Makes the nesting order of if-then-else and
+// the way a comparison is written (x<0 vs !(0<=x), a<=b vs !(b<a)) irrelevant.
 func (x *Extractor) EquivByCases(a, b *RF, depth int) bool {
 	if a.Equal(b) {
 		return true
@@ -904,7 +910,6 @@ func (x *Extractor) EquivByCases(a, b *RF, depth int) bool {
 	if depth > 10 {
 		return false
 	}
-	// first ite condition found in either side
 	var cond *RF
 	for _, r := range []*RF{a, b} {
 		for _, at := range r.Atoms(true) {
@@ -918,9 +923,18 @@ func (x *Extractor) EquivByCases(a, b *RF, depth int) bool {
 		}
 	}
 	if cond == nil {
-		return x.S.BoolEquiv(a, b)
+		if x.S.BoolEquiv(a, b) {
+			return true
+		}
+		// boolean structure over related comparisons: split on the first comparison leaf
+		cond = firstCmpLeaf(x.S, a)
+		if cond == nil {
+			cond = firstCmpLeaf(x.S, b)
+		}
+		if cond == nil {
+			return false
+		}
 	}
-	// split on an atomic condition (a leaf of the boolean structure)
 	leaf := cond
 	for {
 		at := leaf.SingleAtom()
@@ -930,6 +944,27 @@ func (x *Extractor) EquivByCases(a, b *RF, depth int) bool {
 		}
 		break
 	}
+	la := leaf.SingleAtom()
+	if la != nil && isCmpName(la.Name) {
+		d := la.Args[0].Sub(la.Args[1])
+		regions := []int{-1, 0, 1}
+		if !x.S.Integral(d) {
+			regions = append(regions, 2) // unordered (NaN)
+		}
+		for _, reg := range regions {
+			as := x.regionAssumptions([]*RF{a, b}, d, reg)
+			a2, b2 := x.SimplifyUnder(a, as), x.SimplifyUnder(b, as)
+			if reg == 0 {
+				if sub := solveZero(x.S, d); sub != nil {
+					a2, b2 = a2.Subst(sub), b2.Subst(sub)
+				}
+			}
+			if !x.EquivByCases(a2, b2, depth+1) {
+				return false
+			}
+		}
+		return true
+	}
 	for _, truth := range []bool{true, false} {
 		as := []Assumption{{Cond: leaf, True: truth}}
 		if !x.EquivByCases(x.SimplifyUnder(a, as), x.SimplifyUnder(b, as), depth+1) {
@@ -937,6 +972,99 @@ func (x *Extractor) EquivByCases(a, b *RF, depth int) bool {
 		}
 	}
 	return true
+}
+
+func firstCmpLeaf(s *Sym, r *RF) *RF {
+	for _, at := range r.Atoms(true) {
+		if isCmpName(at.Name) {
+			return s.atomRF(at.ID)
+		}
+	}
+	return nil
+}
+
+// regionAssumptions: truth values of every comparison of the two sides of d
+// (up to a constant factor) occurring in the expressions, in the given order
+// region of d (-1: d<0, 0: d==0, 1: d>0, 2: unordered).
+func (x *Extractor) regionAssumptions(exprs []*RF, d *RF, region int) []Assumption {
+	var out []Assumption
+	seen := map[AtomID]bool{}
+	for _, e := range exprs {
+		for _, at := range e.Atoms(true) {
+			if !isCmpName(at.Name) || seen[at.ID] {
+				continue
+			}
+			seen[at.ID] = true
+			d2 := at.Args[0].Sub(at.Args[1])
+			var k int
+			switch {
+			case d2.Equal(d):
+				k = 1
+			case d2.Equal(d.Neg()):
+				k = -1
+			default:
+				if q := d2.Div(d); q != nil {
+					if c, ok := q.IsConst(); ok && c.Sign() != 0 {
+						k = c.Sign()
+					}
+				}
+			}
+			if k == 0 {
+				continue
+			}
+			sg := region * k // sign of d2 in this region (for region 2: unordered)
+			var truth bool
+			if region == 2 {
+				truth = at.Name == "cmp!="
+			} else {
+				switch at.Name {
+				case "cmp<":
+					truth = sg < 0
+				case "cmp<=":
+					truth = sg <= 0
+				case "cmp==":
+					truth = sg == 0
+				case "cmp!=":
+					truth = sg != 0
+				}
+			}
+			out = append(out, Assumption{Cond: x.S.atomRF(at.ID), True: truth})
+		}
+	}
+	return out
+}
+
+// solveZero: d == 0 solved for an atom occurring linearly with a constant coefficient.
+func solveZero(s *Sym, d *RF) map[AtomID]*RF {
+	if c, ok := d.D.isConst(); !ok || c.Sign() == 0 {
+		return nil
+	}
+	for _, t := range d.N.terms {
+		if len(t.vars) != 1 || t.exps[0] != 1 {
+			continue
+		}
+		id := t.vars[0]
+		if len(s.atoms[id].Args) != 0 {
+			continue
+		}
+		// the atom must not occur elsewhere in d
+		occ := 0
+		for _, t2 := range d.N.terms {
+			for _, v := range t2.vars {
+				if v == id {
+					occ++
+				}
+			}
+		}
+		if occ != 1 {
+			continue
+		}
+		rest := d.Sub(s.atomRF(id).Mul(s.Const(t.coef)).Div(&RF{N: d.D, D: polyConst(bigOne()), S: s}))
+		// d = coef*x/D + rest = 0  =>  x = -rest*D/coef
+		val := rest.Neg().Mul(&RF{N: d.D, D: polyConst(bigOne()), S: s}).Div(s.Const(t.coef))
+		return map[AtomID]*RF{id: val}
+	}
+	return nil
 }
 
 // EqUnder: like Eq, with the stated formula also simplified under the context's assumptions.
